@@ -100,7 +100,7 @@ def routing(loader):
     return out
 
 
-TASKS = [StructTask("read-only-frames", frame_check, note="scalar hints: " + ", ".join(SCALARS)), StructTask("pre-and-post-restores-masks", pre_post), StructTask("routing", routing)]
+TASKS = [StructTask("read-only-frames", frame_check, note="scalar hints: " + ", ".join(SCALARS)), StructTask("pre-and-post-restores-masks", pre_post, textual=True), StructTask("routing", routing, textual=True)]
 
 META = dict(
     level="other",
